@@ -337,3 +337,10 @@ pub fn replay(part: &str, bytes: &[u8], case: &Value, stats: &mut Stats) -> Verd
         _ => part_sampled(bytes, stats),
     }
 }
+
+/// Byte-level entry for the fuzz target: the in-process sampled part.
+pub fn fuzz_entry(bytes: &[u8]) -> Verdict {
+    KMAX.with(|c| c.set(60_000));
+    let mut st = Stats::new();
+    part_sampled(bytes, &mut st)
+}
